@@ -392,5 +392,12 @@ func runC15(c *Ctx) error {
 			}
 		}
 	}
+	// command-line target resolution on the built binary (decision table proved in Props/C15: cli_*)
+	famT := c.Rep.Family("cli-target", "the built nfpm binary, `nfpm package` in a fresh directory per case x 5 formats x 2 versions: target omitted (conventional name in the working directory), -t existing directory (relative; absolute with a space and a trailing slash), -t file with the format's extension / a foreign extension / no extension, packager omitted (inferred from the extension only then; error for a directory, an empty or extension-less target); the package must be a readable package of the right format exactly at the expected path and nothing else may appear")
+	if bin, err := BuildNfpmBinary(c.Repo, c.Tmp); err != nil {
+		c.Rep.Note("cli-target: cannot build the nfpm binary: %v", err)
+	} else {
+		CliTargetCases(c, famT, bin)
+	}
 	return nil
 }
